@@ -9,6 +9,7 @@ import (
 	"strings"
 	"time"
 
+	toml "github.com/pelletier/go-toml/v2"
 	"gopkg.in/yaml.v3"
 
 	"verif/internal/gen"
@@ -138,6 +139,26 @@ func genC08(r *gen.Rand) *C08Case {
 	anchorAt := -1
 	if r.Chance(0.06) {
 		anchorAt = r.Intn(nLayers) // one layer is hand-written YAML with anchors and aliases
+	}
+	if r.Chance(0.04) {
+		// values at a type boundary that only TOML can carry (nan, inf): an
+		// encoder may refuse them late, after earlier documents of a large
+		// stream have been encoded
+		pad := strings.Repeat("0123456789abcdef", gen.PickAny(r, []int{10, 300, 4200, 9000}))
+		special := r.Pick("nan", "inf", "-inf", "+inf", "1e400", "0.5")
+		raw := "big = \"" + pad + "\"\nn = 1\n---\nratio = " + special + "\nafter = true\n"
+		if r.Chance(0.3) {
+			raw = "first = 1\n---\n" + raw
+		}
+		w.Files = append(w.Files, procsim.File{Path: filepath.Join(c08Dir, "floats.toml"), Raw: &raw})
+		c.Inv.Cwd = c08Dir
+		c.Inv.Env = map[string]string{"VERIF_A": "va", "VERIF_B": "3"}
+		c.Inv.Kind = r.Pick("inst", "stock")
+		c.Inv.Sched = &wire.Sched{Mode: "Hash", Seed: r.U64() >> 1, Coin: 0.5}
+		c.Inv.StepBudget = ProcStepBudget
+		c.Inv.Args = []string{"-f", r.Pick("json", "json-pretty", "json", "yaml", "toml"), "floats.toml"}
+		c.Faults = append(c.Faults, "input:toml-special-floats")
+		return c
 	}
 	for l := 0; l < nLayers; l++ {
 		if l > 0 {
@@ -851,6 +872,11 @@ func parseLoose(raw string) []any {
 				break
 			}
 			out = append(out, nodeToAny(&n, 0))
+		}
+		// TOML layers
+		var tv map[string]any
+		if toml.Unmarshal([]byte(part), &tv) == nil && len(tv) > 0 {
+			out = append(out, tv)
 		}
 		// JSON streams without separators: also try each line on its own
 		for _, line := range strings.Split(part, "\n") {
